@@ -422,7 +422,32 @@ impl From<&Parameter> for HirField {
 
 pub fn write_file(path: &Path, text: &str) -> io::Result<()> {
     let mut f = File::create(path)?;
+    #[cfg(libninja_verif)]
+    verif_crash_point(&mut f, text);
     f.write_all(text.as_bytes())?;
     println!("{}: Wrote file.", path.display());
     Ok(())
+}
+
+/// Verification hook (only with `--cfg libninja_verif`): when `LIBNINJA_VERIF_CRASH_AT=<k>:<b>` is set, the
+/// process aborts during its (k+1)-th file write, after the file was created/truncated and `b` bytes were written.
+#[cfg(libninja_verif)]
+fn verif_crash_point(f: &mut File, text: &str) {
+    use std::sync::atomic::{AtomicUsize, Ordering};
+    static WRITES: AtomicUsize = AtomicUsize::new(0);
+    let Ok(spec) = std::env::var("LIBNINJA_VERIF_CRASH_AT") else {
+        return;
+    };
+    let Some((k, b)) = spec.split_once(':') else {
+        return;
+    };
+    let (Ok(k), Ok(b)) = (k.parse::<usize>(), b.parse::<usize>()) else {
+        return;
+    };
+    if WRITES.fetch_add(1, Ordering::SeqCst) == k {
+        let bytes = text.as_bytes();
+        let _ = f.write_all(&bytes[..b.min(bytes.len())]);
+        let _ = f.flush();
+        std::process::abort();
+    }
 }
